@@ -15,7 +15,7 @@ RULE = (
     "Non-trivial = non-square bitmap, or width != em, or metrics that do not divide evenly; distinct = (sizes, config)."
 )
 ASSUMPTIONS = ["CBDT format 17 small metrics (uint8 height/width/advance, int8 bearings); sbix originOffset = lower-left corner relative to the origin"]
-N = {"quick": 640, "thorough": 12000}
+N = {"quick": 3200, "thorough": 24000}
 
 
 def plan(tier, seed):
